@@ -6,6 +6,9 @@ use crate::ledger::{self, Kind};
 use std::borrow::Borrow;
 use std::fmt;
 
+/// key classes (wide enough for containers beyond 256 entries)
+pub type Cls = u16;
+
 pub const KMAGIC: u32 = 0x4B45_5921;
 pub const VMAGIC: u32 = 0x5641_4C21;
 pub const DEADMAGIC: u32 = 0xDEAD_DEAD;
@@ -15,7 +18,7 @@ pub const DEADMAGIC: u32 = 0xDEAD_DEAD;
 #[repr(C)]
 #[derive(Debug)]
 pub struct Class {
-    pub class: u8,
+    pub class: Cls,
     pub owner: u32,
 }
 
@@ -35,7 +38,7 @@ pub struct Val {
 }
 
 impl Class {
-    pub fn probe(class: u8) -> Self {
+    pub fn probe(class: Cls) -> Self {
         Class { class, owner: 0 }
     }
     fn check(&self, what: &str) {
@@ -46,11 +49,11 @@ impl Class {
 }
 
 impl Key {
-    pub fn new(class: u8, ver: u8) -> Self {
+    pub fn new(class: Cls, ver: u8) -> Self {
         let serial = ledger::fresh(Kind::K);
         Key { magic: KMAGIC, serial, cls: Class { class, owner: serial }, ver }
     }
-    pub fn class(&self) -> u8 {
+    pub fn class(&self) -> Cls {
         self.cls.class
     }
     pub fn check(&self, what: &str) -> bool {
@@ -220,7 +223,7 @@ impl<'de> serde::Deserialize<'de> for Key {
     fn deserialize<D: serde::Deserializer<'de>>(d: D) -> Result<Key, D::Error> {
         let s = String::deserialize(d)?;
         let mut it = s.split('.');
-        let c: u8 = it.next().and_then(|x| x.parse().ok()).ok_or_else(|| serde::de::Error::custom("bad key"))?;
+        let c: Cls = it.next().and_then(|x| x.parse().ok()).ok_or_else(|| serde::de::Error::custom("bad key"))?;
         let r: u8 = it.next().and_then(|x| x.parse().ok()).ok_or_else(|| serde::de::Error::custom("bad key"))?;
         Ok(Key::new(c, r))
     }
